@@ -98,9 +98,12 @@ theorem gen_unpack_routing_table_entry (bs : List Nat) :
     have e1 : (Int.land ((word32 r0 r1 r2 r3 : Nat) : Int) 4278190080 = 4278190080)
         ↔ (word32 r0 r1 r2 r3 &&& 0xff000000 = 0xff000000) := by
       rw [show (4278190080 : Int) = ((4278190080 : Nat) : Int) from rfl, land_natCast]; omega
+    have e1' : ((4278190080 : Int) = Int.land ((word32 r0 r1 r2 r3 : Nat) : Int) 4278190080)
+        ↔ (word32 r0 r1 r2 r3 &&& 0xff000000 = 0xff000000) := by
+      rw [show (4278190080 : Int) = ((4278190080 : Nat) : Int) from rfl, land_natCast]; omega
     by_cases hr : word32 r0 r1 r2 r3 &&& 0xff000000 = 0xff000000
-    · simp only [e1, hr, if_true, unpackPy]
-    · simp only [e1, hr, if_false, unpackPy]
+    · simp only [e1, e1', hr, if_true, unpackPy]
+    · simp only [e1, e1', hr, if_false, unpackPy]
       simp (disch := decide) only [lit_natCast, land_natCast, shr_natCast, Int.toNat_natCast]
 
 end Rig.C10
